@@ -1,0 +1,16 @@
+//go:build verif
+
+package dist
+
+import "time"
+
+// VerifSetLeaseTTL sets the lease period of a provider created by New / NewKvsLockProvider.
+// Must be called before the provider hands out lockers that are in use.
+func VerifSetLeaseTTL(p any, d time.Duration) bool {
+	dlp, ok := p.(*kvsLockProvider)
+	if !ok {
+		return false
+	}
+	dlp.leaseTTL = d
+	return true
+}
